@@ -842,6 +842,10 @@ class Interferogram(RichData):
         """Strip the lateral calibration and revert to pixels."""
         self.dx = 1.
         self.x, self.y = make_xy_grid(self.data.shape, dx=self.dx)
+        # the polar grid is derived from x and y; drop it so it is recomputed
+        # from the new Cartesian grid the next time it is read
+        self._r = None
+        self._t = None
         self._latcaled = False
         return self
 
